@@ -3509,7 +3509,6 @@ fn main() {
         (C::NuLlPoint, "crossings with nearly normalised lines"),
         (C::NuLlParallel, "parallel copies of nearly normalised lines"),
         (C::RouteBitIdentical, "results of other construction routes"),
-        (C::RouteDiffer, "results of other construction routes that went through the full oracle (line routes that re-normalise change a last bit now and then)"),
         (C::RouteClNone, "circle-line misses run through the construction routes"),
         (C::RouteClTouch, "circle-line tangencies run through the construction routes"),
         (C::RouteClIntersect, "circle-line secants run through the construction routes"),
@@ -3543,12 +3542,15 @@ fn main() {
         (C::ContainsOn, "points on lines"),
         (C::ContainsOff, "points off lines"),
     ];
+    // (no demand on how many route results differ in bits from the plain route: that depends on rounding
+    // details of the implementation, e.g. whether `Line::new` re-normalises an already unit normal)
     for (c, what) in need {
-        if total.get(c) == 0 {
+        // recorded violations are reported first: a defect may empty a class (a kind that is never answered)
+        if total.get(c) == 0 && total.fails.is_empty() {
             run.machinery_failure(&format!("non-vacuity: the enumeration contains no {what}"));
         }
     }
-    if total.get(C::LlPoint) == total.get(C::LlPointFar) {
+    if total.get(C::LlPoint) == total.get(C::LlPointFar) && total.fails.is_empty() {
         run.machinery_failure("non-vacuity: every line-line point was beyond 1e3");
     }
 
